@@ -1,7 +1,9 @@
 package rest
 
 import (
+	"errors"
 	"net/http"
+	"sync"
 	"time"
 
 	"github.com/gorilla/websocket"
@@ -27,6 +29,11 @@ const (
 	maxMessageSizeV1 = 512
 )
 
+var (
+	errListenerClosedV1 = errors.New("websocket listener closed")
+	errListenerSlowV1   = errors.New("websocket listener queue full, dropping client")
+)
+
 // options for gorilla connection upgrader
 var upgraderV1 = websocket.Upgrader{
 	ReadBufferSize:  1024,
@@ -38,6 +45,8 @@ type msgListenerV1 struct {
 	hub     *msghub.Hub                // Global message hub
 	c       chan event.MessageMetadata // Queue of messages from Receive()
 	mailbox string                     // Name of mailbox to monitor, "" == all mailboxes
+	done    chan struct{}              // Closed by Close(); c itself is never closed
+	once    sync.Once                  // Guards done
 }
 
 // newMsgListenerV1 creates a listener and registers it.  Optional mailbox parameter will restrict
@@ -47,6 +56,7 @@ func newMsgListenerV1(hub *msghub.Hub, mailbox string) *msgListenerV1 {
 		hub:     hub,
 		c:       make(chan event.MessageMetadata, 100),
 		mailbox: mailbox,
+		done:    make(chan struct{}),
 	}
 	hub.AddListener(ml)
 	return ml
@@ -58,8 +68,24 @@ func (ml *msgListenerV1) Receive(msg event.MessageMetadata) error {
 		// Did not match the watched mailbox name.
 		return nil
 	}
-	ml.c <- msg
-	return nil
+	return ml.enqueue(msg)
+}
+
+// enqueue hands an event to the websocket writer without ever blocking the hub: a listener that
+// was closed, or whose client is not keeping up, reports an error and is dropped by the hub.
+func (ml *msgListenerV1) enqueue(msg event.MessageMetadata) error {
+	select {
+	case <-ml.done:
+		return errListenerClosedV1
+	default:
+	}
+	select {
+	case ml.c <- msg:
+		return nil
+	default:
+		ml.once.Do(func() { close(ml.done) })
+		return errListenerSlowV1
+	}
 }
 
 // Delete handles a deleted message.
@@ -119,6 +145,10 @@ func (ml *msgListenerV1) WSWriter(conn *websocket.Conn) {
 	// Handle messages from hub until msgListener is closed
 	for {
 		select {
+		case <-ml.done:
+			// msgListener closed, exit
+			_ = conn.WriteMessage(websocket.CloseMessage, []byte{})
+			return
 		case msg, ok := <-ml.c:
 			if err := conn.SetWriteDeadline(time.Now().Add(writeWaitV1)); err != nil {
 				slog.Warn().Err(err).Msg("Failed to set write deadline for msg")
@@ -148,13 +178,9 @@ func (ml *msgListenerV1) WSWriter(conn *websocket.Conn) {
 
 // Close removes the listener registration
 func (ml *msgListenerV1) Close() {
-	select {
-	case <-ml.c:
-		// Already closed
-	default:
-		ml.hub.RemoveListener(ml)
-		close(ml.c)
-	}
+	// Closing is signalled through done; the queue may still hold events and is left to the GC.
+	ml.once.Do(func() { close(ml.done) })
+	ml.hub.RemoveListener(ml)
 }
 
 // MonitorAllMessagesV1 is a web handler which upgrades the connection to a websocket and notifies
